@@ -17,6 +17,7 @@ import (
 	"github.com/MichaelMure/git-bug/cache"
 	"github.com/MichaelMure/git-bug/entities/bug"
 	"github.com/MichaelMure/git-bug/entities/identity"
+	"github.com/MichaelMure/git-bug/entity"
 )
 
 type c20gInput struct {
@@ -24,6 +25,7 @@ type c20gInput struct {
 	NBugs     int `json:"nbugs"`
 	NComments int `json:"ncomments"`
 	K         int `json:"k"` // page size
+	Ties      int `json:"ties,omitempty"` // bugs created offline on a second replica at the same logical and wall-clock times as the first ones, then pulled: their sort keys tie
 }
 
 type c20gDriver struct{}
@@ -37,7 +39,7 @@ func (c20gDriver) Gen(r *Rand, tier string) []json.RawMessage {
 	}
 	var res []json.RawMessage
 	for i := 0; i < n; i++ {
-		res = append(res, mustJSON(c20gInput{NIdent: r.Range(3, 9), NBugs: r.Range(2, 7), NComments: r.Range(1, 8), K: r.Range(1, 4)}))
+		res = append(res, mustJSON(c20gInput{NIdent: r.Range(3, 9), NBugs: r.Range(2, 7), NComments: r.Range(1, 8), K: r.Range(1, 4), Ties: []int{0, 2, 5}[i%3]}))
 	}
 	return res
 }
@@ -99,6 +101,52 @@ func (c20gDriver) Run(raw json.RawMessage) Case {
 		if b == 0 {
 			firstBug = string(x.Id())
 		}
+	}
+	if in.Ties > 0 {
+		// a second replica that worked offline: same clocks, same seconds
+		remote, err := newTestRepo(dir+"/remote", true)
+		if err != nil {
+			panic(err)
+		}
+		repo2, err := newTestRepo(dir+"/r2", false)
+		if err != nil {
+			panic(err)
+		}
+		_ = repo.AddRemote("origin", remote.GetLocalRemote())
+		_ = repo2.AddRemote("origin", remote.GetLocalRemote())
+		if _, err := identity.Push(repo, "origin"); err != nil {
+			panic(err)
+		}
+		if err := identity.Pull(repo2, "origin"); err != nil {
+			panic(err)
+		}
+		for b := 0; b < in.Ties; b++ {
+			au, err := identity.ReadLocal(repo2, authors[b%len(authors)].Id())
+			if err != nil {
+				panic(err)
+			}
+			x, _, err := bug.Create(au, int64(1600000000+b%in.NBugs), fmt.Sprintf("twin %d", b), "m", nil, nil)
+			if err != nil {
+				panic(err)
+			}
+			if err := x.Commit(repo2); err != nil {
+				panic(err)
+			}
+		}
+		if _, err := bug.Push(repo2, "origin"); err != nil {
+			panic(err)
+		}
+		if _, err := bug.Fetch(repo, "origin"); err != nil {
+			panic(err)
+		}
+		resolvers := entity.Resolvers{&identity.Identity{}: identity.NewSimpleResolver(repo)}
+		for mr := range bug.MergeAll(repo, resolvers, "origin", authors[0]) {
+			if mr.Err != nil || mr.Status == entity.MergeStatusInvalid {
+				panic("merge of the twins: " + mr.String())
+			}
+		}
+		_ = repo2.Close()
+		_ = remote.Close()
 	}
 	mrc := cache.NewMultiRepoCache()
 	_, events := mrc.RegisterDefaultRepository(repo)
@@ -170,6 +218,9 @@ func (c20gDriver) Run(raw json.RawMessage) Case {
 	var terms []string
 	obs := map[string]interface{}{}
 	tags := []string{fmt.Sprintf("k:%d", in.K)}
+	if in.Ties > 0 {
+		tags = append(tags, "tied-sort-keys")
+	}
 	for _, f := range fields {
 		full, e := fetch(f, "first: 1000")
 		if e != "" {
